@@ -355,6 +355,9 @@ class Executor:
                     bs[off + i] = (v >> (8 * i)) & 0xFF
             if all((p.off + i) in bs for i in range(nb)) and ty.k == "int":
                 return sum(bs[p.off + i] << (8 * i) for i in range(nb))
+            if all((p.off + i) in bs for i in range(nb)) and ty.is_fp():
+                # e.g. a float read from bytes written by memset
+                return self.convert_loaded(sum(bs[p.off + i] << (8 * i) for i in range(nb)), ty)
             if o.zero and ty.k == "int":
                 return sum(bs.get(p.off + i, 0) << (8 * i) for i in range(nb))
         # load of part of a Bits / bigger int cell
